@@ -385,6 +385,10 @@ class Forward:
             self._invalidate_calls(s.test)
             c_t = self.cmp(s.test)
             c_f = self.cmp(s.test, neg=True)
+            if c_t[0] == "truthy" and c_t[1] == "True":
+                # a test whose truth is read off the value ids (`None is None`, `(a, b) is None`): only the live arm is run
+                self._block(s.body if c_t[2] else s.orelse)
+                return
             before = self.st
             st_t = before.copy()
             st_t.conds.append(c_t)
